@@ -118,13 +118,15 @@ class Tree:
         sess = Stub('session', user=Stub('user', name=self.me)) if session else None
         self.accept = Sym(ctx.fresh_bool('accept_children'), 'bool')
         self.maxc = Sym(ctx.fresh_int('max_children'), 'int')
+        # connection attempts to earlier proposed parents may still be running (they have no influence on what the server is told)
+        self.pending_attempts = [A.TaskVal(it.aio, None, 'potential-parent-pending')] if ctx.choose(2, 'pending-parent-attempts') == 1 else []
         self.emitted = []
         bus = Stub('bus', emit=Recorder('emit', fn=lambda it2, a, k: self.emitted.append(a[0]), is_async=True))
         self.dn = new(it, DN, 'DistributedNetwork', _settings=settings, _event_bus=bus, _network=self.network, _session=sess,
                       parent=self.parent, children=list(self.children), potential_parents=[], distributed_peers=list(peers),
                       parent_min_speed=None, parent_speed_ratio=None, min_parents_in_cache=None, parent_inactivity_timeout=None,
                       distributed_alive_interval=None, _max_children=self.maxc, _accept_children=self.accept,
-                      _potential_parent_tasks=[])
+                      _potential_parent_tasks=self.pending_attempts)
         self.peers = peers
 
     # --- spec functions -----------------------------------------------------
@@ -388,12 +390,20 @@ def prove_max_children(src_root, ex: Explorer):
             ctx.assume(uname.t != t.me.t)
         msg = new(it, MSG, 'GetUserStats.Response', username=uname, user_stats=stats)
         acc0, max0 = t.dn.attrs['_accept_children'], t.dn.attrs['_max_children']
+        at_yield = []
+        it.aio.on_yield = lambda it2, label: at_yield.append((label, t.dn.attrs['_accept_children'], t.dn.attrs['_max_children']))
         try:
             run(it, it.getattr(t.dn, '_on_get_user_stats'), msg, Opaque('conn'))
         except PyRaise as pr:
             ctx.fail('C13.max_children.no-raise', repr(pr.exc))
             return
+        it.aio.on_yield = None
         acc, mx = t.dn.attrs['_accept_children'], t.dn.attrs['_max_children']
+        if own:
+            # the limits are in force from the moment the server is told: a peer that connects while the message is being written is
+            # admitted under the limits the handler computed, not under the old ones
+            ctx.prove('C13.max_children.in-force-when-told', all(a is acc and m is mx for _l, a, m in at_yield),
+                      f'while the handler is suspended ({[l for l, _a, _m in at_yield]}) the old child limits are still in force')
         if not own:
             ctx.prove('C13.max_children.spec[other-user]', acc is acc0 and mx is max0 and not t.server_sent)
             return
